@@ -21,9 +21,11 @@ from .sym import (Z, C, LList, LTuple, LDict, LSet, SObj, BoundMethod, Closure, 
 
 
 class PyRaise(Exception):
+    LINE = [None]
+
     def __init__(self, kind, payload=None, msg=""):
         super().__init__(f"{kind}: {msg}")
-        self.kind, self.payload, self.msg = kind, payload, msg
+        self.kind, self.payload, self.msg = kind, payload, f"{msg} [at {PyRaise.LINE[0]}]"
 
 
 class ReturnSig(Exception):
@@ -662,6 +664,20 @@ class Interp:
             return ZSeq(sub, "tuple")
         return LList(None, sub)
 
+    def norm_index(self, i, n):
+        """Python's index normalisation (negative indices count from the end); the case split is dropped when the path
+        condition decides the sign (keeps the terms of loop bodies and spec functions small)."""
+        i = z3.simplify(i)
+        if z3.is_int_value(i):
+            return i if i.as_long() >= 0 else i + n
+        if not getattr(self, "spec_body", False):
+            return z3.If(i < 0, i + n, i)
+        if not self.path.feasible(i < 0):
+            return i
+        if not self.path.feasible(i >= 0):
+            return i + n
+        return z3.If(i < 0, i + n, i)
+
     def get_item(self, obj, key):
         if isinstance(obj, C) and isinstance(key, C):
             try:
@@ -704,7 +720,7 @@ class Interp:
                 self.guard([("TypeError", z3.Not(V.is_integral(zk)))])
                 i = V.intval(zk)
             n = z3.Length(seq)
-            j = z3.If(i < 0, i + n, i)
+            j = self.norm_index(i, n)
             self.guard([("IndexError", z3.Or(j < 0, j >= n))])
             return Z(seq[j])
         zo, zk = self.to_z(obj), self.to_z(key)
@@ -982,8 +998,10 @@ class Interp:
                 return self.opaque_attr(obj, name)
             if isinstance(obj, Z) and obj.cls is None:
                 from .contracts import INTERFACES
-                if name in INTERFACES:
-                    return InterfaceMethod(name, obj)
+                vc = self.contracts.get(self.verifying) if self.verifying else None
+                iname = (getattr(vc, "uses_interfaces", None) or {}).get(name, name)
+                if iname in INTERFACES:
+                    return InterfaceMethod(iname, obj)
             return BuiltinMethod(name, obj)
         if isinstance(obj, BoundMethod):
             if name == "__name__":
@@ -1210,6 +1228,9 @@ class Interp:
             return call_builtin_method(self, f, args, kwargs)
         if isinstance(f, C):
             x = f.v
+            if hasattr(x, "_spec_kinds"):
+                from . import specfun
+                return specfun.apply(self, x, args, kwargs)
             if getattr(x, "__module__", None) == "spec.prims":
                 from .prims_model import call_prim
                 return call_prim(self, x.__name__, args, kwargs)
@@ -1450,6 +1471,7 @@ class Interp:
         m = getattr(self, "s_" + type(node).__name__, None)
         if m is None:
             raise Unsupported(f"statement {type(node).__name__} at line {node.lineno}")
+        PyRaise.LINE[0] = f"{fr.name}:{node.lineno}"
         return m(node, fr)
 
     def s_Expr(self, node, fr):
